@@ -41,5 +41,24 @@ def main():
                 print(res.stdout[-1500:])
         finally:
             shutil.rmtree(out, ignore_errors=True)
-    print(f"apalache: {len(RUNS) - bad} ok, {bad} failed")
+    # the same two rules without any bound, as TLAPS proofs (spec/proofs)
+    if shutil.which("tlapm"):
+        for mod in ("IdAllocProof", "SleepLedgerProof"):
+            out = tempfile.mkdtemp(prefix="tlapm.")
+            try:
+                shutil.copy(os.path.join(HERE, "spec", "proofs", mod + ".tla"), out)
+                for base in ("IdRule.tla", "Ledger.tla"):
+                    shutil.copy(os.path.join(HERE, "spec", base), out)
+                res = subprocess.run(["timeout", "900", "tlapm", "--cleanfp", mod + ".tla"], cwd=out, capture_output=True,
+                                     text=True, check=False)
+                txt = res.stdout + res.stderr
+                import re
+                m = re.search(r"All (\d+) obligations proved", txt)
+                print(f"{'ok  ' if m else 'FAIL'} {mod}: " + (f"all {m.group(1)} proof obligations discharged by tlapm" if m else txt[-800:]))
+                bad += 0 if m else 1
+            finally:
+                shutil.rmtree(out, ignore_errors=True)
+    else:
+        print("tlapm not found: proofs skipped")
+    print(f"apalache / tlapm: {bad} failed")
     return 0 if bad == 0 else 2
